@@ -535,6 +535,14 @@ func (it *Interp) call(fr *frame, b *ssa.BasicBlock, idx int, pred *ssa.BasicBlo
 		name = "invoke." + ins.Call.Method.Name()
 		args = append([]Val{it.val(fr, ins.Call.Value)}, args...)
 	}
+	snap := Event{Fn: name, Args: args}
+	for _, a := range args {
+		if o, ok := a.(Obj); ok {
+			snap.Recv = *st.Heap[o.ID]
+			snap.Has = true
+			break
+		}
+	}
 	// 1. models
 	if mf, ok := it.Models[name]; ok {
 		if vals, handled := mf(it, st, name, args); handled {
@@ -545,7 +553,9 @@ func (it *Interp) call(fr *frame, b *ssa.BasicBlock, idx int, pred *ssa.BasicBlo
 					nfr, nst, nv = fr.clone(), st.Clone(), cloneVisits(visits)
 				}
 				_ = i
-				nst.Trace = append(nst.Trace, Event{Fn: name, Args: args, Ret: v})
+				ev := snap
+				ev.Ret = v
+				nst.Trace = append(nst.Trace, ev)
 				res = append(res, resume(nfr, nst, v, nv)...)
 			}
 			return res
@@ -554,14 +564,7 @@ func (it *Interp) call(fr *frame, b *ssa.BasicBlock, idx int, pred *ssa.BasicBlo
 	inl := cal != nil && len(cal.Blocks) > 0 && !it.Opaque[name] && (it.M.InDecimalPkg(cal) || it.M.InContextPkg(cal)) &&
 		(it.M.IsDecMethod(cal) || it.Inline[name])
 	if it.Traced[name] || !inl {
-		ev := Event{Fn: name, Args: args}
-		for _, a := range args {
-			if o, ok := a.(Obj); ok {
-				ev.Recv = *st.Heap[o.ID]
-				ev.Has = true
-				break
-			}
-		}
+		ev := snap
 		if it.Traced[name] || (cal != nil && it.M.InDecimalPkg(cal) && hasObj(args)) {
 			st.Trace = append(st.Trace, ev)
 		}
@@ -597,6 +600,12 @@ func (it *Interp) call(fr *frame, b *ssa.BasicBlock, idx int, pred *ssa.BasicBlo
 				continue
 			}
 			for f, ss := range it.M.StoreSets(cal, ai) {
+				if f == it.M.F.Prec && !ss.Plain {
+					// every store of the precision in the callee happens only when it is 0
+					if pv, ok := ConstInt(st.Get(o, f)); ok && pv != 0 {
+						continue
+					}
+				}
 				if ss.Top || f != it.M.F.Form {
 					for _, s := range states {
 						s.Set(o, f, TopV)
@@ -623,6 +632,9 @@ func (it *Interp) call(fr *frame, b *ssa.BasicBlock, idx int, pred *ssa.BasicBlo
 		st.Imprec = append(st.Imprec, "a Decimal escapes to "+name+" at "+it.M.InstrPos(ins))
 	}
 	var ret Val = TopV
+	if cal != nil && it.M.ReturnsSelf(cal) && len(args) > 0 && ins.Call.Signature().Results().Len() == 1 {
+		ret = args[0] // every return of the callee yields its receiver
+	}
 	if n := ins.Call.Signature().Results().Len(); n > 1 {
 		t := make(Tuple, n)
 		for i := range t {
